@@ -191,16 +191,28 @@ def handle (id : Nat) (hdr : List Sexp) (body : List Sexp) : String :=
 open AsynqModel.Mock.EnterFail in
 def handleFail (id : Nat) (hdr : List Sexp) (body : List Sexp) : String :=
   let prod? : Option Product := match hdr with
-    | [.atom "accepting", _] => some .accepting
-    | [.atom "rejecting", _] => some .rejecting
-    | [.atom "noncallable", _] => some .noncallable
+    | .atom "accepting" :: _ :: _ => some .accepting
+    | .atom "rejecting" :: _ :: _ => some .rejecting
+    | .atom "noncallable" :: _ :: _ => some .noncallable
     | _ => none
   let style? : Option Style := match hdr with
-    | [_, .atom "with"] => some .withBlock
-    | [_, .atom "deco"] => some .deco
-    | [_, .atom "classdeco"] => some .classDeco
-    | [_, .atom "start-stop"] => some .startStop
-    | [_, .atom "start-stopall"] => some .startStopall
+    | _ :: .atom "with" :: _ => some .withBlock
+    | _ :: .atom "deco" :: _ => some .deco
+    | _ :: .atom "classdeco" :: _ => some .classDeco
+    | _ :: .atom "start-stop" :: _ => some .startStop
+    | _ :: .atom "start-stopall" :: _ => some .startStopall
+    | _ => none
+  -- round 5: the class of the exception the product's `__setattr__` raises (third header field; absent = AttributeError)
+  let exc? : Option ExcClass := match hdr with
+    | [_, _] => some .attributeError
+    | _ :: _ :: .atom "attributeError" :: _ => some .attributeError
+    | _ :: _ :: .atom "typeError" :: _ => some .typeError
+    | _ :: _ :: .atom "attrSub" :: _ => some .attrSub
+    | _ :: _ :: .atom "valueError" :: _ => some .valueError
+    | _ :: _ :: .atom "lookupSub" :: _ => some .lookupSub
+    | _ :: _ :: .atom "runtimeError" :: _ => some .runtimeError
+    | _ :: _ :: .atom "falsyExc" :: _ => some .falsyExc
+    | _ :: _ :: .atom "baseOnly" :: _ => some .baseOnly
     | _ => none
   let held? : Sexp → Option Held := fun
     | .atom "orig" => some .orig
@@ -214,13 +226,14 @@ def handleFail (id : Nat) (hdr : List Sexp) (body : List Sexp) : String :=
         | x => (held? x).map some
       some { entered := (← e.bool?), during := during, after := (← held? a) }
     | _ => none
-  match prod?, style?, obs? with
-  | some prod, some style, some impl =>
-    let model := EnterFail.runCurrent prod style   -- the code as it is: `__enter__` undoes the patch when it fails
+  match prod?, style?, obs?, exc? with
+  | some prod, some style, some impl, some exc =>
+    -- the code as it is: `__enter__` undoes the patch when attaching fails, whatever the exception (`except BaseException`)
+    let model := EnterFail.runWith EnterFail.catchAll prod exc style
     let c := if model == impl then "ok" else "diff"
     let d := if model == impl then "" else (s!"model={repr model} impl={repr impl}".replace "\n" " ")
     let f (s : String) := if s == "ok" then "ok" else "fail:" ++ s
     s!"R {id} CORR={c} SPEC={f (EnterFail.specClause impl)} SPECM={f (EnterFail.specClause model)} | {d}"
-  | _, _, _ => s!"R {id} CORR=diff SPEC=ok SPECM=ok | unparsable mockfail case"
+  | _, _, _, _ => s!"R {id} CORR=diff SPEC=ok SPECM=ok | unparsable mockfail case"
 
 end AsynqModel.Drv.Mock
